@@ -44,6 +44,7 @@ func calleeIs(p *eng.Prog, in ssa.Instruction, keys ...string) bool {
 
 func runC07(c *eng.Ctx) {
 	p := c.P
+	eventLoopPreparesBeforeFlush(c) // C07-m21: shared with C09
 	writtenMetricStaysActive(c)
 	pendingOutputClaimOrder(c)
 	walRegistryReplacedInOneHold(c)
